@@ -35,6 +35,9 @@ TARGETS = [
     ("base/slot_chain.rs", ["C13"]),
 ]
 FLIP = {" > ": " >= ", " >= ": " > ", " < ": " <= ", " <= ": " < "}
+# MUTATE_OPS=logic: && <-> || and == <-> != instead of the relational boundaries
+if os.environ.get("MUTATE_OPS") == "logic":
+    FLIP = {" && ": " || ", " || ": " && ", " == ": " != ", " != ": " == "}
 def sh(cmd, **kw):
     return subprocess.run(cmd, shell=True, capture_output=True, text=True, **kw)
 def main():
@@ -60,11 +63,12 @@ def main():
             code = line.split("//")[0]
             if "->" in code and re.search(r"fn |\|.*\| ->", code):
                 continue
-            for m in re.finditer(r" (>=|<=|>|<) ", code):
+            pat = r" (&&|\|\||==|!=) " if os.environ.get("MUTATE_OPS") == "logic" else r" (>=|<=|>|<) "
+            for m in re.finditer(pat, code):
                 op = " %s " % m.group(1)
                 # skip generics / shifts / arrows
                 before = code[:m.start()]
-                if before.rstrip().endswith(("=", "-", "<", ">")) or code[m.end():].lstrip().startswith(("=", ">", "<")):
+                if os.environ.get("MUTATE_OPS") != "logic" and (before.rstrip().endswith(("=", "-", "<", ">")) or code[m.end():].lstrip().startswith(("=", ">", "<"))):
                     continue
                 mutated = line[:m.start()] + FLIP[op] + line[m.end():]
                 new = lines[:]; new[ln] = mutated
